@@ -1,5 +1,5 @@
 (* C01 model, second store flavour: NetworkXGraphStorageDisjoint
-   (fim/graph/networkx_property_graph_disjoint.py:81-186) - one nx.Graph per graph id, in a defaultdict.
+   (fim/graph/networkx_property_graph_disjoint.py:87-186) - one nx.Graph per graph id, in a defaultdict.
    Tied to the code by the `disjoint` correspondence stream and judged by the same property oracle;
    no theorems are stated about this flavour.  Definitions only. *)
 From Coq Require Import String.
@@ -21,7 +21,7 @@ Fixpoint dset (s : dstore) (gid : str) (g : nxg) : dstore :=
   | (k, g') :: r => if str_eqb k gid then (k, g) :: r else (k, g') :: dset r gid g
   end.
 
-(* add_graph :92-116: a graph id that already holds nodes is left as it is ("skipping") *)
+(* add_graph :98-124: a graph id that already holds nodes is left as it is ("skipping") *)
 Definition d_add_graph (s : dstore) (gid : str) (g : nxg) : dstore * res :=
   if nonempty (dget s gid) then (s, ROk gid)
   else match relabel 1%N g with
@@ -31,7 +31,7 @@ Definition d_add_graph (s : dstore) (gid : str) (g : nxg) : dstore * res :=
                    else (s, RErrImport)
        end.
 
-(* add_graph_direct :118-131: replaces *)
+(* add_graph_direct :126-139: replaces *)
 Definition d_add_graph_direct (s : dstore) (gid : str) (g : nxg) : dstore * res :=
   match relabel 1%N g with
   | None => (s, RUnsupported)
